@@ -42,7 +42,7 @@ def check_roundtrip(s: bc.Subject, ctx, sharp: bool):
         ctx.hist("forward_only", s.name)
         return
     if not np.all(np.isfinite(y)):
-        overflow = s.kind == "leaf" and s.name == "Exp" and bc.amax(x) > 700
+        overflow = s.kind == "leaf" and ((s.name == "Exp" and bc.amax(x) > 700) or bc.amax(x) >= 100)
         if s.kind == "tree" and s.node is not None:  # genuine overflow of the composed maths (e.g. Exp of 1e3)?
             y_ref, _ = bd.ref_eval(s.node, "fwd", x, s.c, False)
             overflow = not np.all(np.isfinite(y_ref))
@@ -95,6 +95,9 @@ def check_roundtrip(s: bc.Subject, ctx, sharp: bool):
         y2, cls = y, "image"
     x2 = np.asarray(lib_call(W, obj.inverse, jnp.asarray(y2), cj))
     if not np.all(np.isfinite(x2)):
+        if bc.amax(y2) >= 100:  # conditioner networks fed +-1e3 drive raw scales far outside the |raw| <= 50 box: genuine under/overflow
+            ctx.inconcl("overflow_at_large_magnitude")
+            return moved and tol_x <= 1e-6 * (1 + xm)
         if s.kind == "tree" and s.node is not None:
             x_ref, _ = bd.ref_eval(s.node, "inv", y2, s.c, False)
             if not np.all(np.isfinite(x_ref)):
